@@ -127,6 +127,10 @@ def run_call(call, scratch):
                         out = os.path.join(scratch, "out_%d.txt" % call.get("idx", 0))
                         if os.path.exists(out):
                             os.remove(out)
+                        if call.get("prefill") is not None:
+                            # the output file exists already and holds something (reused from an earlier run)
+                            with open(out, "w", newline="") as f:
+                                f.write(call["prefill"])
                         r = glyles.convert(output_file=out, **kw)
                         obs["file"] = open(out, newline="").read() if os.path.exists(out) else None
                         obs["result"] = encode_value(r)
